@@ -294,6 +294,47 @@ def strat_scale(draw, tier):
                         "breadth_first": None}}
 
 
+@st.composite
+def strat_nochip(draw, tier):
+    """A machine on which no chip works (all dead): with at least one vertex
+    to place every placer fails as documented, with none it succeeds."""
+    w, h = draw(st.integers(1, 3)), draw(st.integers(1, 3))
+    n = draw(st.integers(0, 3))
+    names = ["v%d" % i for i in range(n)]
+    placer = draw(st.sampled_from(PLACERS))
+    opts = {"chip_order": None, "vertex_order": None, "breadth_first": None,
+            "effort": draw(st.sampled_from([0.0, 0.1])), "callback": None}
+    return {"machine": {"w": w, "h": h, "mesh": True,
+                        "resources": {"Cores": 2}, "exceptions": [],
+                        "dead_chips": [[x, y] for x in range(w)
+                                       for y in range(h)],
+                        "dead_links": []},
+            "placer": placer, "options": opts,
+            "vertices": [{"name": v, "needs": {"Cores": draw(
+                st.integers(0, 1))}} for v in names],
+            "nets": draw(gp.nets_strategy(names, max_nets=2, max_fan=2,
+                                          min_nets=0)) if n >= 2 else [],
+            "constraints": [], "vkind": "str",
+            "seed": draw(st.integers(0, 100))}
+
+
+def check_nochip(case):
+    from rig.place_and_route.exceptions import InsufficientResourceError
+    kind, out = run_placer(case)
+    if not case["vertices"]:
+        require(kind == "placed" and out == {}, "placing nothing on a "
+                "machine without working chips does not give an empty "
+                "placement", {"outcome": kind})
+    else:
+        require(kind == "failed" and
+                isinstance(out, InsufficientResourceError),
+                "placing a vertex on a machine without working chips does "
+                "not fail with InsufficientResourceError",
+                {"outcome": kind, "result": repr(out)[:200]})
+    return {"nontrivial": bool(case["vertices"]),
+            "classes": [case["placer"]]}
+
+
 def check_scale(case):
     out = check_complete(case)
     out["classes"] = [case["placer"], case["kind"]]
@@ -331,3 +372,10 @@ CLAUSES.append(Clause(
          "case counts as non-trivial",
     examples={"quick": 60, "thorough": 600},
     shards={"quick": 4, "thorough": 16}))
+CLAUSES.append(Clause(
+    "no-working-chip", check_nochip, strategy=strat_nochip,
+    rule="machines of 1-3 x 1-3 chips, all dead, 0-3 vertices, every placer: "
+         "InsufficientResourceError (empty placement for no vertices); "
+         "non-trivial = at least one vertex",
+    examples={"quick": 100, "thorough": 1000},
+    shards={"quick": 2, "thorough": 8}))
